@@ -589,6 +589,176 @@ Proof.
       * left. rewrite nancount_rev. lia.
 Qed.
 
+(* ---- characterisation of the fill primitives ---- *)
+Definition given (v : xv) : bool := xnotnull v.
+(* the last given ordinate among positions 0..i, the first given ordinate among positions i.. (NaN if none) *)
+Definition last_given (ys : list xv) (i : nat) : xv := last (filter given (firstn (S i) ys)) XNaN.
+Definition next_given (ys : list xv) (i : nat) : xv := hd XNaN (filter given (skipn i ys)).
+
+Lemma filter_given_nn l : Forall (fun v => v <> XNaN) (filter given l).
+Proof. apply Forall_forall. intros x Hx. apply filter_In in Hx. destruct Hx as [_ H]. destruct x; simpl in H; try discriminate; intro E; discriminate. Qed.
+Lemma last_nn l : l <> [] -> Forall (fun v => v <> XNaN) l -> last l XNaN <> XNaN.
+Proof.
+  induction l as [|a t IH]; intros N H. congruence. inversion H; subst. destruct t as [|b t]. simpl; auto.
+  change (last (a :: b :: t) XNaN) with (last (b :: t) XNaN). apply IH; auto. discriminate.
+Qed.
+
+Lemma ffill_from_char : forall ys acc i, (i < length ys)%nat ->
+  nth i (ffill_from acc ys) XNaN = xfillna (last_given ys i) acc.
+Proof.
+  induction ys as [|y t IH]; intros acc i Hi. simpl in Hi; lia.
+  destruct i as [|i].
+  - unfold last_given. cbn [firstn filter ffill_from nth]. destruct y; reflexivity.
+  - cbn [ffill_from nth]. cbv zeta. rewrite IH by (simpl in Hi; lia).
+    unfold last_given. change (firstn (S (S i)) (y :: t)) with (y :: firstn (S i) t). cbn [filter].
+    set (L := filter given (firstn (S i) t)).
+    destruct (given y) eqn:G.
+    + assert (Hy : xfillna y acc = y) by (destruct y; simpl in *; auto; discriminate).
+      rewrite Hy. destruct L as [|b L'] eqn:EL. simpl. destruct y; simpl in *; auto; discriminate.
+      change (last (y :: b :: L') XNaN) with (last (b :: L') XNaN).
+      assert (N : last (b :: L') XNaN <> XNaN).
+      { apply last_nn. discriminate. rewrite <- EL. apply filter_given_nn. }
+      destruct (last (b :: L') XNaN); simpl; auto; congruence.
+    + assert (Hy : xfillna y acc = acc) by (destruct y; simpl in *; auto; discriminate). rewrite Hy. reflexivity.
+Qed.
+Theorem ffill_char ys i : (i < length ys)%nat -> nth i (ffill ys) XNaN = last_given ys i.
+Proof. intro H. unfold ffill. rewrite ffill_from_char by auto. destruct (last_given ys i); reflexivity. Qed.
+
+Lemma filter_rev {A} (f : A -> bool) l : filter f (rev l) = rev (filter f l).
+Proof. induction l as [|a t IH]. reflexivity. cbn [rev filter]. rewrite filter_app, IH. simpl. destruct (f a); simpl; auto. rewrite app_nil_r. reflexivity. Qed.
+Lemma ffill_length ys : length (ffill ys) = length ys.
+Proof. unfold ffill. generalize XNaN. induction ys; intro a0; simpl; auto. Qed.
+
+Theorem bfill_char ys i : (i < length ys)%nat -> nth i (bfill ys) XNaN = next_given ys i.
+Proof.
+  intro H. unfold bfill. rewrite rev_nth by (rewrite ffill_length, rev_length; auto).
+  rewrite ffill_length, rev_length. rewrite ffill_char by (rewrite rev_length; lia).
+  unfold last_given, next_given. rewrite firstn_rev.
+  replace (length ys - S (length ys - S i))%nat with i by lia.
+  rewrite filter_rev. rewrite last_hd_rev, rev_involutive. reflexivity.
+Qed.
+
+(* ---- linear: interp_known through sorted known points ---- *)
+Fixpoint xs_increasing (k : list (Q * Q)) : Prop :=
+  match k with a :: ((b :: _) as t) => fst a < fst b /\ xs_increasing t | _ => True end.
+
+(* left of (or at) the first known point: the first segment, extended *)
+Theorem interp_known_left x0 y0 x1 y1 k2 x : x <= x1 ->
+  interp_known ((x0, y0) :: (x1, y1) :: k2) x = XFin (line x0 y0 x1 y1 x).
+Proof. intro H. cbn [interp_known]. destruct k2; auto. rewrite (Qle_bool_true x x1 H). reflexivity. Qed.
+
+Lemma line_at_right x0 y0 x1 y1 : x0 < x1 -> line x0 y0 x1 y1 x1 == y1.
+Proof. intro H. unfold line. field. lra. Qed.
+Lemma line_at_left x0 y0 x1 y1 : x0 < x1 -> line x0 y0 x1 y1 x0 == y0.
+Proof. intro H. unfold line. field. lra. Qed.
+Lemma line_ext x0 y0 x1 y1 x x' : x == x' -> line x0 y0 x1 y1 x == line x0 y0 x1 y1 x'.
+Proof. intro H. unfold line. rewrite H. reflexivity. Qed.
+
+Lemma interp_known_cons2 p q rest x : rest <> [] ->
+  interp_known (p :: q :: rest) x =
+  if Qle_bool x (fst q) then XFin (line (fst p) (snd p) (fst q) (snd q) x) else interp_known (q :: rest) x.
+Proof. destruct p, q, rest; [congruence | reflexivity]. Qed.
+
+(* between two consecutive known points: the segment through them *)
+Theorem interp_known_between : forall k1 xa ya xb yb k2 x,
+  xs_increasing (k1 ++ (xa, ya) :: (xb, yb) :: k2) -> xa <= x <= xb ->
+  interp_known (k1 ++ (xa, ya) :: (xb, yb) :: k2) x =x= XFin (line xa ya xb yb x).
+Proof.
+  induction k1 as [|[xp yp] k1 IH]; intros xa ya xb yb k2 x Hs Hx.
+  - cbn [app]. rewrite interp_known_left by lra. reflexivity.
+  - cbn [app] in *. destruct k1 as [|[xq yq] k1'].
+    + cbn [app] in *. destruct Hs as [Hpa [Hab Hs]]. cbn [fst] in *.
+      cbn [interp_known]. pose proof (Qle_bool_spec x xa) as C. destruct (Qle_bool x xa).
+      * (* x = xa: both segments pass through (xa, ya) *)
+        assert (E : x == xa) by lra. simpl.
+        rewrite (line_ext _ _ _ _ x xa E), (line_ext xa ya xb yb x xa E), line_at_right, line_at_left by lra. reflexivity.
+      * change (interp_known ((xa, ya) :: (xb, yb) :: k2) x =x= XFin (line xa ya xb yb x)).
+        rewrite interp_known_left by lra. reflexivity.
+    + cbn [app] in *. destruct Hs as [Hpq Hs]. cbn [fst] in *.
+      assert (Hq : xq <= xa).
+      { clear IH Hx. revert xq yq Hs Hpq. induction k1' as [|[xr yr] k1'' IH2]; intros xq yq Hs Hpq.
+        - cbn [app] in Hs. destruct Hs as [H _]. cbn [fst] in H. lra.
+        - cbn [app] in Hs. destruct Hs as [H Hs]. cbn [fst] in H. specialize (IH2 xr yr Hs). lra. }
+      rewrite interp_known_cons2 by (destruct k1'; discriminate). cbn [fst snd].
+      pose proof (Qle_bool_spec x xq) as C. destruct (Qle_bool x xq).
+      * (* x <= xq <= xa <= x: only possible when xq = xa = x, i.e. k1' is empty up to equality of abscissae *)
+        assert (Ex : x == xq) by lra. assert (Ea : xq == xa) by lra.
+        destruct k1' as [|[xr yr] k1''].
+        -- cbn [app] in Hs. destruct Hs as [H _]. cbn [fst] in H. lra.
+        -- cbn [app] in Hs. destruct Hs as [H Hs']. cbn [fst] in H.
+           assert (xr <= xa).
+           { clear - Hs'. revert xr yr Hs'. induction k1'' as [|[xs ys] k IH3]; intros xr yr Hs'.
+             - cbn [app] in Hs'. destruct Hs' as [H _]. cbn [fst] in H. lra.
+             - cbn [app] in Hs'. destruct Hs' as [H Hs']. cbn [fst] in H. specialize (IH3 xs ys Hs'). lra. }
+           lra.
+      * apply (IH xa ya xb yb k2 x); auto.
+Qed.
+
+(* right of (or at) the last known point: the last segment, extended *)
+Theorem interp_known_right : forall k1 xa ya xb yb x,
+  xs_increasing (k1 ++ [(xa, ya); (xb, yb)]) -> xb <= x ->
+  interp_known (k1 ++ [(xa, ya); (xb, yb)]) x =x= XFin (line xa ya xb yb x).
+Proof.
+  induction k1 as [|[xp yp] k1 IH]; intros xa ya xb yb x Hs Hx.
+  - reflexivity.
+  - cbn [app] in *. destruct k1 as [|[xq yq] k1'].
+    + cbn [app] in *. destruct Hs as [Hpa [Hab _]]. cbn [fst] in *.
+      rewrite interp_known_cons2 by discriminate. cbn [fst snd].
+      pose proof (Qle_bool_spec x xa) as C. destruct (Qle_bool x xa). lra. reflexivity.
+    + cbn [app] in *. destruct Hs as [Hpq Hs]. cbn [fst] in *.
+      assert (Hq : xq < xb).
+      { clear IH Hx. revert xq yq Hs Hpq. induction k1' as [|[xr yr] k1'' IH2]; intros xq yq Hs Hpq.
+        - cbn [app] in Hs. destruct Hs as [H [H' _]]. cbn [fst] in *. lra.
+        - cbn [app] in Hs. destruct Hs as [H Hs]. cbn [fst] in H. specialize (IH2 xr yr Hs). lra. }
+      rewrite interp_known_cons2 by (destruct k1'; discriminate). cbn [fst snd].
+      pose proof (Qle_bool_spec x xq) as C. destruct (Qle_bool x xq). lra.
+      apply (IH xa ya xb yb x); auto.
+Qed.
+
+(* the linear method, position by position *)
+Theorem fill_linear_char ts ys i t : length ts = length ys -> nth_error ts i = Some t ->
+  nth i (fill_linear ts ys) XNaN =
+  clip01 (match nth i ys XNaN with XNaN => interp_known (known ts ys) t | v => v end).
+Proof.
+  unfold fill_linear. generalize (known ts ys) as k. intro k. revert ys i.
+  induction ts as [|t0 ts IH]; intros [|y ys] i Hl Hi; try discriminate; destruct i as [|i]; try discriminate.
+  - simpl in Hi. inversion Hi; subst. reflexivity.
+  - simpl in Hi. cbn [combine map nth]. apply IH; auto.
+Qed.
+
+(* the known points of a line on an increasing grid have increasing abscissae *)
+Lemma known_cons t0 ts y ys : known (t0 :: ts) (y :: ys) = (match y with XFin q => [(t0, q)] | _ => [] end) ++ known ts ys.
+Proof. reflexivity. Qed.
+Lemma known_above : forall ts ys t0 p, increasing (t0 :: ts) = true -> In p (known ts ys) -> t0 < fst p.
+Proof.
+  induction ts as [|t1 ts IH]; intros ys t0 p Hi Hp. destruct ys; destruct Hp.
+  destruct ys as [|y ys]. destruct Hp.
+  rewrite known_cons in Hp. simpl in Hi. apply andb_prop in Hi. destruct Hi as [H01 Hi].
+  pose proof (Qltb_spec t0 t1) as S. rewrite H01 in S.
+  apply in_app_or in Hp. destruct Hp as [Hp|Hp].
+  - destruct y; simpl in Hp; try tauto. destruct Hp as [Hp|[]]. subst. simpl. exact S.
+  - specialize (IH ys t1 p Hi Hp). lra.
+Qed.
+Lemma xs_increasing_cons p k : (forall q, In q k -> fst p < fst q) -> xs_increasing k -> xs_increasing (p :: k).
+Proof. destruct k as [|q k]; intros H Hk; simpl; auto. split; auto. apply H. left; auto. Qed.
+Theorem known_increasing : forall ts ys, increasing ts = true -> xs_increasing (known ts ys).
+Proof.
+  induction ts as [|t0 ts IH]; intros ys Hi. destruct ys; simpl; auto.
+  destruct ys as [|y ys]. simpl; auto.
+  rewrite known_cons.
+  assert (Hi' : increasing ts = true) by (destruct ts; [reflexivity | simpl in Hi; apply andb_prop in Hi; tauto]).
+  destruct y as [|q|b]; cbn [app]; try (apply IH; auto).
+  apply xs_increasing_cons; [|apply IH; auto]. intros p Hp. apply (known_above ts ys t0 p Hi Hp).
+Qed.
+
+(* the four methods in terms of the primitives characterised above *)
+Theorem fill_methods_compose mn ts ys : (mn <= nancount ys)%nat ->
+  fill_line FStep mn ts ys = map (fun v => xfillna v X0) (ffill ys) /\
+  fill_line FForward mn ts ys = bfill (ffill ys) /\
+  fill_line FBackward mn ts ys = ffill (bfill ys) /\
+  fill_line FLinear mn ts ys = fill_linear ts ys.
+Proof. intro H. unfold fill_line. apply Nat.ltb_ge in H. rewrite H. repeat split. Qed.
+
 (* ------------------------------------------------------------------------------------------ *)
 (* decreasing_cdfs                                                                              *)
 (* ------------------------------------------------------------------------------------------ *)
